@@ -42,6 +42,7 @@ def main(tier):
     # the real gameboy.New, twice
     ck.use_build(['.'], bodies='image,image/color,math/bits')
     ck.run([('.', 'VerifNewWiring', {'audiooff': a, 'videooff': v}) for a in (0, 1) for v in (0, 1)], timeout_ms=300000)
+    ck.run([('.', 'VerifNewAfterCleanup', {'type': t}) for t in (0x03, 0x13, 0x1b)], timeout_ms=300000)
     ck.stubs_used.append('ioutil.ReadFile -> the bytes registered by the harness (vTempRom); display/speakers pure-Go stubs')
     ck.finish(explanation='two/three CPU instances alive in one process: non-interference and solo-equivalence of one instruction step, for every value of every instance\'s state')
 
